@@ -51,6 +51,7 @@ type VerifC10Producer struct {
 	SampleErr bool // samplePackets fails after start() succeeded
 	NoData    bool // samplePackets sees no packets (hardware not sending yet)
 	Nchan     int
+	StopDelay time.Duration // how long closing the device takes (stop() returns, and the device counts as closed, only after it)
 
 	mu     sync.Mutex
 	silent bool
@@ -113,6 +114,9 @@ func (p *VerifC10Producer) start() error {
 func (p *VerifC10Producer) discardStale() error { return nil }
 
 func (p *VerifC10Producer) stop() error {
+	if p.StopDelay > 0 {
+		time.Sleep(p.StopDelay)
+	}
 	p.mu.Lock()
 	defer p.mu.Unlock()
 	p.stops++
@@ -174,7 +178,25 @@ func VerifC10NewLancero(card lancero.Lanceroer, nrows int) *LanceroSource {
 func VerifC11NewSourceControl(npre, nsamp int) *SourceControl {
 	VerifC10Setup()
 	sc := NewSourceControl()
-	sc.clientUpdates = clientMessageChan
+	// the server's own updates go to an unbuffered channel that the harness drains, and can stop draining for a
+	// while (a client-update consumer that is slow makes every handler that reports to clients slow)
+	upd := make(chan ClientUpdate)
+	sc.clientUpdates = upd
+	go func() {
+		for {
+			verifC11HoldMu.Lock()
+			until := verifC11HoldUntil
+			verifC11HoldMu.Unlock()
+			if d := time.Until(until); d > 0 {
+				time.Sleep(d)
+				continue
+			}
+			select {
+			case <-upd:
+			case <-time.After(2 * time.Millisecond):
+			}
+		}
+	}()
 	ms := newMapServer()
 	ms.clientUpdates = clientMessageChan
 	sc.mapServer = ms
@@ -187,6 +209,18 @@ func VerifC11NewSourceControl(npre, nsamp int) *SourceControl {
 		}
 	}()
 	return sc
+}
+
+var (
+	verifC11HoldMu    sync.Mutex
+	verifC11HoldUntil time.Time
+)
+
+// VerifC11HoldUpdates makes the consumer of the servers' client updates stop receiving for d (from now).
+func VerifC11HoldUpdates(d time.Duration) {
+	verifC11HoldMu.Lock()
+	verifC11HoldUntil = time.Now().Add(d)
+	verifC11HoldMu.Unlock()
 }
 
 // VerifIsSourceActive exposes the RPC layer's own idea of whether a source runs.
